@@ -35,12 +35,15 @@ def cells(kind, cfgname):
             yield mode, list(zip(bits, combo))
 
 
-def run_cell(acc, rng, kind, cfgname, mode, assign):
+def run_cell(acc, rng, kind, cfgname, mode, assign, prop='C11', force_it=False):
     cfg = diff.full_cfg(gen.CONFIGS[cfgname])
     cpu = target.new_cpu(gen.CONFIGS[cfgname], False, [(0, 0x40)])
     st_ = gen.gen_core(rng)
     thumb = dict((b, v) for b, v in assign).get(('cpsr', 5), 0)
     st_['cpsr'] = gen.gen_cpsr(rng, cfg, bool(thumb), mode=mode, e=rng.getrandbits(1))
+    if force_it and thumb:
+        it = rng.choice([x for x in gen.IT_STATES if x])          # an exception taken in the middle of an IT block (C08)
+        st_['cpsr'] = (st_['cpsr'] & ~0x0600FC00) | ((it & 3) << 25) | ((it >> 2) << 10)
     if thumb and rng.random() < 0.3:
         st_['cpsr'] |= 1 << 24          # J:T = 1:1, ThumbEE state (reachable through ENTERX): every entry clears J, return offsets are Thumb's
     for k in gen.SPSR_KEYS:
@@ -108,7 +111,7 @@ def run_cell(acc, rng, kind, cfgname, mode, assign):
     if d or rb:
         from vf.props.e1prop import sig
         case = {'kind': kind, 'cfgname': cfgname, 'state': {k: v for k, v in pre.items()}, 'alignment': alignment}
-        acc.violation('C11:%s:%s:%s' % (kind, cfgname, sig(d) if d else 'out-of-range'), case,
+        acc.violation('%s:%s:%s:%s' % (prop, 'entry-' + kind if prop != 'C11' else kind, cfgname, sig(d) if d else 'out-of-range'), case,
                       {'diffs(expected,observed)': e1.fmt_diff(d), 'out_of_range': rb, 'mode': mode})
 
 
@@ -125,6 +128,39 @@ def shard(kind, cfgname, part, nparts, seed, frac):
     return acc
 
 
+# ---------------------------------------------------------------------------------------------- entries caused by instructions
+# the same entries reached the way a program reaches them: SVC, UDF, SMC, a trapped WFI / WFE / coprocessor access (Hyp trap), an undefined
+# coprocessor access, an aborting load - stepped through emulate_cycle() so that "continues at the vector" also covers what the step loop does
+# after the entry function returns (the direct calls above cannot see that)
+from vf.props import e1prop  # noqa: E402
+ENTRY_ROWS = ['SVC_A1', 'SVC_T1', 'UDF_A1', 'UDF_T1', 'UDF_T2', 'SMC_A1', 'SMC_T1', 'WFI_A1', 'WFI_T1', 'WFI_T2', 'WFE_A1', 'WFE_T1', 'WFE_T2',
+              'MCR_A1', 'MCR_T1', 'MRC_A1', 'MRC_T1', 'CDP_A1', 'CDP_T1', 'LDR_imm_A1', 'LDR_imm_T1', 'STR_imm_A1', 'LDM_A1', 'BKPT_A1', 'BKPT_T1']
+
+
+def entry_tweak(rng, row, w, case):
+    st_ = case['state']
+    cfg = diff.full_cfg(case['cfg'])
+    if cfg['have_virt_ext'] and rng.random() < 0.7:
+        st_['hcr'] = (st_.get('hcr', 0) & ~((1 << 13) | (1 << 14) | (1 << 19) | (1 << 27) | 1)) | (rng.getrandbits(1) << 13) | (rng.getrandbits(1) << 14) | \
+            (rng.getrandbits(1) << 19) | ((1 if rng.random() < 0.3 else 0) << 27)            # TWI, TWE, TSC, TGE
+        st_['hcptr'] = rng.getrandbits(14)
+    if row.name.startswith(('LDR', 'STR', 'LDM')):
+        mode = gen.MODE_NAME[st_['cpsr'] & 31]
+        f = row.extract(w)
+        if isinstance(f.get('n'), int) and f['n'] <= 14:
+            st_[gen.bank_key(f['n'], mode)] = rng.choice((gen.DATA[0] + 0x41, gen.DATA[0] + 0x42, gen.DATA[0] + 0x40))     # unaligned: alignment Data Abort with SCTLR.A
+        st_['sctlr'] |= 2
+
+
+def entry_classify(res, case):
+    return ['entry:' + res.status] if res.status in ('undef', 'svc', 'smc', 'hyptrap', 'abort') else []
+
+
+ENTRY_PLAN = e1prop.Plan('C11', ENTRY_ROWS, cfgs=('v6', 'v6-nosec', 'v7-virt', 'v7-virt', 'v7'), classify=entry_classify,
+                         nontrivial=lambda res: res.status in ('undef', 'svc', 'smc', 'hyptrap', 'abort'), tweak_case=entry_tweak,
+                         case_kw=lambda rng, row: {'mpu': False, 'mmu': False, 'code_base': rng.choice((0x8000, 0x8000, 0xFFFFFF00, 0x7FFFFF80))}, hooked=(False, True))
+
+
 def run(ctx):
     ctx.rule = ('Direct calls of Registers.take_{undef_instr,svc,smc,data_abort,physical_irq,physical_fiq,hyp_trap}_exception and ArmV6.take_reset on '
                 'configurations with/without Security and Virtualization Extensions. For each kind the bits its routing / masking / T,E / vector-base rule '
@@ -132,7 +168,7 @@ def run(ctx):
                 'are enumerated completely (thorough; a 35% stratified sample in quick); all other state (A/I/F, IT, flags, E, other SCTLR/SCR/HCR bits, '
                 'VBAR/MVBAR/HVBAR, PC incl. 0 / 2^32 edges, all banked registers and SPSRs) is random per cell. Oracle: the entry rules of '
                 'vf/ref/machine.py written from B1.9 (target mode, SPSR, LR/ELR_hyp, masks, IT/J cleared, T/E source, vector, SCR.NS cleared from Monitor mode) '
-                'plus the frame condition. Non-trivial: everything except the one combination the suite covers; distinct = (kind, config, mode, bits, PC).')
+                'plus the frame condition. Plus the same entries caused by instructions (SVC, UDF, SMC, BKPT, WFI/WFE/coprocessor accesses trapped by HCR.{TWI,TWE,TSC,TGE}/HCPTR, undefined coprocessor accesses, loads/stores taking an alignment abort) stepped through emulate_cycle() and compared with the reference step on the complete state. Non-trivial: everything except the one combination the suite covers; distinct = (kind, config, mode, bits, PC).')
     ctx.technique = 'exhaustive enumeration of routing bits x random remaining state, differential against a table-driven reference'
     ctx.assumptions = ['vf/ref/machine.py exception entry is a faithful reading of DDI 0406C B1.8-B1.9', 'external / asynchronous aborts are not generated (armulator hard-wires them off)']
     tasks = []
@@ -142,6 +178,7 @@ def run(ctx):
             for part in range(2):
                 tasks.append((shard, (kind, cfgname, part, 2, ctx.shard_seed(k), ctx.n(0.35, 1.0))))
                 k += 1
+    tasks += [(e1prop.shard, ('vf.props.c11:ENTRY_PLAN', ctx.shard_seed(700 + i), ctx.n(250, 5000))) for i in range(8)]
     ctx.pmap(_dispatch, tasks)
     ctx.acc.exhaustive = not ctx.quick
     ctx.acc.extra['enumerated_bits_per_kind'] = {k: ['%s<%s>' % b for b in v] for k, v in BITS.items()}
@@ -152,6 +189,8 @@ def _dispatch(fn, args):
 
 
 def replay(case, bucket=None):
+    if 'poke' in case:
+        return e1prop.replay(ENTRY_PLAN, case)
     cfgname, kind = case['cfgname'], case['kind']
     cfg = diff.full_cfg(gen.CONFIGS[cfgname])
     cpu = target.new_cpu(gen.CONFIGS[cfgname], False, [(0, 0x40)])
